@@ -79,6 +79,50 @@ class Recorder:
             yield to_native(self._shape.stream, gen_json(self._shape.stream, self._rng), self._opaque)
 
 
+class FakeTask:
+    """A finished (or pending) asyncio.Task stand-in with a scripted outcome."""
+
+    def __init__(self, done, outcome):
+        self._done = done
+        self._outcome = outcome
+        self.callbacks = []
+        self.cancel_requested = False
+
+    def done(self):
+        return self._done
+
+    def cancelled(self):
+        return self._done and self._outcome == "CancelledError"
+
+    def result(self):
+        import asyncio
+        if not self._done:
+            raise asyncio.InvalidStateError()
+        if self._outcome == "returned":
+            return None
+        raise _exception_by_name(self._outcome)
+
+    def exception(self):
+        import asyncio
+        if not self._done:
+            raise asyncio.InvalidStateError()
+        if self._outcome == "returned":
+            return None
+        if self._outcome == "CancelledError":
+            raise asyncio.CancelledError()
+        return _exception_by_name(self._outcome)
+
+    def add_done_callback(self, cb):
+        self.callbacks.append(cb)
+
+    def cancel(self):
+        self.cancel_requested = True
+        return not self._done
+
+    def get_name(self):
+        return "fake-task"
+
+
 def _exception_by_name(name):
     import asyncio
     import builtins
@@ -215,6 +259,14 @@ def to_native(shape, j, opaque=None):
         return cls[j["member"] if isinstance(j, dict) else j]
     if k == "const":
         return _native_const(shape.value)
+    if k == "oneof":
+        idx = j.get("index", 0) if isinstance(j, dict) else 0
+        return _native_const(shape.values[idx % len(shape.values)])
+    if k == "task":
+        f = j.get("fields", j) if isinstance(j, dict) else {}
+        oc = f.get("outcome")
+        oc = oc.get("member") if isinstance(oc, dict) else (oc or "returned")
+        return FakeTask(bool(f.get("done", True)), oc)
     if k == "subset":
         items = (j.get("set") or j.get("list") or j.get("frozenset") or []) if isinstance(j, dict) else (j or [])
         return frozenset(items) if shape.frozen else set(items)
@@ -306,6 +358,10 @@ def gen_json(shape, rng: random.Random, seeds=None, size=3):
         return {"member": rng.choice(list(members))}
     if k == "subset":
         return {"set": [e for e in shape.elems if rng.random() < 0.7]}
+    if k == "oneof":
+        return {"index": rng.randrange(len(shape.values))}
+    if k == "task":
+        return {"fields": {"done": rng.random() < 0.8, "outcome": rng.choice(shape.outcomes)}}
     if k in ("const", "opaque"):
         return None
     raise NotImplementedError(f"generator for shape {k}")
